@@ -21,6 +21,8 @@
  *   p <id> <slot> <tid> <off>       word <slot> of block id := addr(tid)+off
  *   R <slot> <tid> <off>            root[slot] := addr(tid)+off   (tid<0: clear)
  *   g                               stoGc()
+ *   d <id>                          the script drops its reference to block id without freeing it
+ *                                   (garbage for the collector; the harness stops tracking the block)
  *   L <level>                       stoCtl(StoCtl_GcLevel, level)
  *   q                               quit
  *
@@ -61,7 +63,7 @@ void bintFree(void *x) { (void) x; }
 #define MASK	((uintptr_t) 0xA5A5A5A5A5A5A5A5ULL)
 #define MAXBLK	32768
 #define MAXPTR	4
-#define MAXROOT	64
+#define MAXROOT	8192
 #define MAXSECT	65536
 
 struct hptr { int used; long slot; uintptr_t xval; };
@@ -227,8 +229,8 @@ tail(void)
 	int au = hAudit();
 	int lost = lostCheck();
 	int pt = patCheckAll();
-	if (pt) printf(" au=%d lost=%d pat=1\n", au, lost);
-	else	printf(" au=%d lost=%d pat=0:%d:%ld\n", au, lost, patBadId, patBadOff);
+	if (pt) printf(" au=%d lost=%d bgc=%lu pat=1\n", au, lost, (unsigned long) stoBytesGc);
+	else	printf(" au=%d lost=%d bgc=%lu pat=0:%d:%ld\n", au, lost, (unsigned long) stoBytesGc, patBadId, patBadOff);
 }
 
 static int
@@ -426,6 +428,7 @@ runOne(char *line, long step)
 	case 'p': doSetPtr((int) a, b, (int) c, d); break;
 	case 'R': doSetRoot(a, (int) b, c); break;
 	case 'g': doGc(); break;
+	case 'd': blk[a].live = 0; printf("D %ld |", a); tail(); break;
 	case 'L': stoCtl(StoCtl_GcLevel, (int) a); printf("L %ld |", a); tail(); break;
 	default:  printf("? %c\n", op); break;
 	}
